@@ -2,9 +2,10 @@
 # seam_audit.sh — informational; NOT a check for any property, never prints a
 # VIOLATION line, registered nowhere in MANIFEST.json.
 #
-# Purpose: DESIGN.md answers "not applicable" for C01–C19 because the library
-# has no schedule, clock, I/O, fault or shared-mutable-state surface for a
-# deterministic simulator to own. That verdict is conditional on facts about
+# Purpose: DESIGN.md answers "not applicable" for 18 of the 19 properties because,
+# outside the fmt::Write sink behind Display (C15, ./check C15), the library has no
+# schedule, clock, I/O, fault or shared-mutable-state surface for a deterministic
+# simulator to own. That verdict is conditional on facts about
 # the tree. This script re-derives those facts from the *current working tree*
 # of the repository so that a reader can see whether the premise still holds:
 #
@@ -107,10 +108,10 @@ fi
 
 echo "== verdict ($(( $(date +%s) - t0 )) s)"
 if [ ${#found[@]} -eq 0 ]; then
-  echo "premise of DESIGN.md holds for this tree: no scheduling point, clock, I/O seam, fault point or shared mutable state; one interleaving, zero fault points"
+  echo "premise of the not-applicable verdicts (DESIGN.md) holds for this tree: no shared mutable state, thread, lock, clock or I/O inside the library; the only caller-supplied stream is the fmt::Write sink behind Display, which is what ./check C15 simulates"
   echo "SEAMS none"
 else
-  echo "premise of DESIGN.md does NOT hold for this tree; revisit DESIGN.md §7 for the properties concerned"
+  echo "premise of the not-applicable verdicts does NOT hold for this tree; revisit DESIGN.md §7 for the properties concerned"
   echo "SEAMS found: ${found[*]}"
 fi
 exit 0
